@@ -23,6 +23,16 @@ Definition in_visit (k : state_kind) : bool :=
 Lemma in_visit_have_token (k : state_kind) : in_visit k = true -> have_token_kind k = true.
 Proof. destruct k; cbn; intros H; try discriminate H; reflexivity. Qed.
 
+(* How a visit ends.  Since the F20 repair do_use_token passes the token in the same poll that finds
+   nothing (more) to send, so the poll that ends a visit leaves the station in what do_pass_token
+   leaves: a token-passing state (PassToken while the synchronisation pause lasts, AwaitStatusResponse
+   after a GAP request, CheckTokenPass after the token telegram), or - when the station is its own
+   successor - the first state of its next visit (UseToken, no first_app, no cycle done). *)
+Definition pass_kind (k : state_kind) : bool :=
+  match k with KPassToken | KAwaitStatusResponse | KCheckTokenPass => true | _ => false end.
+Definition fresh_visit (s : state) : bool :=
+  match s with UseToken _ None false => true | _ => false end.
+
 (* One item of a station history: an application callback, the end of a poll (time of the poll and
    the station as it is afterwards), the re-creation of the station by set_offline. *)
 Inductive hitem : Type :=
@@ -114,10 +124,14 @@ Definition cpre (n : nat) (tsa : Z) (m : cst) (x : hitem) : Prop :=
          is dropped without callback only when the station loses the token (back to ActiveIdle) *)
       (k' = KAwaitDataResponse -> c_out m <> None) /\
       (c_out m <> None -> k' = KAwaitDataResponse \/ k' = KActiveIdle) /\
-      (* once all applications have declined, the token is passed ... *)
-      (in_visit (c_kind m) = true -> (0 < n)%nat -> c_decl m = n -> k' = KPassToken) /\
-      (* ... and it is passed only then, or when the hold time is over *)
-      (in_visit (c_kind m) = true -> k' = KPassToken -> c_decl m = n \/ f_end_tht f <= now)
+      (* once all applications have declined, the token is passed (in this very poll) ... *)
+      (in_visit (c_kind m) = true -> (0 < n)%nat -> c_decl m = n ->
+         pass_kind k' = true \/ fresh_visit (f_state f) = true) /\
+      (* ... and it is passed only then, or when the hold time is over (a first-visit state with declines
+         counted can only be the next visit of a station that passed the token to itself) *)
+      (in_visit (c_kind m) = true ->
+         pass_kind k' = true \/ (fresh_visit (f_state f) = true /\ c_decl m <> 0%nat) ->
+         c_decl m = n \/ f_end_tht f <= now)
   | HReset => True
   end.
 
@@ -136,7 +150,7 @@ Definition cpost (n : nat) (m : cst) (x : hitem) : cst :=
       mkCst k'
             (match k' with KAwaitDataResponse => c_out m | _ => None end)
             (match k' with KOffline => 0%nat | _ => c_turn m end)                    (* a station that dropped offline was re-created *)
-            (if in_visit k' then (if in_visit (c_kind m) then c_decl m else 0%nat) else 0%nat)
+            (if in_visit k' then (if in_visit (c_kind m) then (if fresh_visit (f_state f) then 0%nat else c_decl m) else 0%nat) else 0%nat)
   | HReset => cst_init
   end.
 
@@ -296,8 +310,11 @@ Definition rpre (n : nat) (s : rr_st) (x : hitem) : Prop :=
   | HCall (CallReceiveReply i _ _) | HCall (CallHandleTimeout i _) => i = r_turn s
   | HEnd now f =>
       let k' := kind_of (f_state f) in
-      (in_visit (r_kind s) = true -> (0 < n)%nat -> r_decl s = n -> k' = KPassToken) /\
-      (in_visit (r_kind s) = true -> k' = KPassToken -> r_decl s = n \/ f_end_tht f <= now)
+      (in_visit (r_kind s) = true -> (0 < n)%nat -> r_decl s = n ->
+         pass_kind k' = true \/ fresh_visit (f_state f) = true) /\
+      (in_visit (r_kind s) = true ->
+         pass_kind k' = true \/ (fresh_visit (f_state f) = true /\ r_decl s <> 0%nat) ->
+         r_decl s = n \/ f_end_tht f <= now)
   | HReset => True
   end.
 
@@ -308,7 +325,7 @@ Definition rpost (n : nat) (s : rr_st) (x : hitem) : rr_st :=
   | HEnd now f =>
       let k' := kind_of (f_state f) in
       mkRr k' (match k' with KOffline => 0%nat | _ => r_turn s end)
-           (if in_visit k' then (if in_visit (r_kind s) then r_decl s else 0%nat) else 0%nat)
+           (if in_visit k' then (if in_visit (r_kind s) then (if fresh_visit (f_state f) then 0%nat else r_decl s) else 0%nat) else 0%nat)
   | HReset => mkRr KOffline 0 0
   end.
 
@@ -937,6 +954,30 @@ Proof.
       destruct Em as [_ [_ [_ [_ [Hs5 _]]]]]. rewrite Hs5. exact Hq4.
 Qed.
 
+(* what do_pass_token leaves: a token-passing state, or the first state of the next visit when the
+   station is its own successor *)
+Lemma do_pass_token_ends f now (w : W) f' w' :
+  do_pass_token A f now w = Ok (f', w') ->
+  pass_kind (kind_of (f_state f')) = true \/ f_state f' = UseToken now None false.
+Proof.
+  intros H0. pose proof (do_pass_token_squiet _ _ _ _ _ H0) as [_ [_ Hq]]. revert H0.
+  unfold do_pass_token, assert_entry. intros H.
+  destruct (f_state f) as [ | | | | | | |dg att| | ] eqn:Es; cbn [kind_of do_fn_entry state_kind_eqb bind] in H; try discriminate H.
+  destruct (wait_synchronization_pause f now) as [[f1 wait]| |] eqn:Ew; cbn [bind] in H; try discriminate H.
+  apply wait_sync_same in Ew. destruct Ew as [[_ [_ [_ [_ [Hs1 _]]]]] _].
+  destruct wait.
+  - injection H as <- <-. rewrite Hs1, Es. left. reflexivity.
+  - rewrite Hs1, Es in H. cbn [get_pass_token bind] in H.
+    match type of H with bind ?x _ = _ => destruct x as [[[f2 w2] polled]| |] eqn:E2 end; cbn [bind] in H; try discriminate H.
+    destruct polled as [pa|].
+    + apply trans_spec in H. destruct H as [s' [Ht [-> _]]].
+      unfold transition_await_status_response in Ht. destruct (assert_kind _ _); cbn [bind] in Ht; try discriminate Ht.
+      injection Ht as <-. left. reflexivity.
+    + apply pass_token_tail_state in H. destruct H as [[tk H]|[at' H]].
+      * rewrite H in Hq. cbn in Hq. destruct Hq as [Hq|Hq]; [discriminate Hq|]. right. rewrite H. exact Hq.
+      * rewrite H. left. reflexivity.
+Qed.
+
 Lemma pass_token_false s att s' : transition_pass_token s false att = Ok s' -> s' = PassToken false att.
 Proof. unfold transition_pass_token. destruct (assert_kind _ _); cbn [bind]; try discriminate. intros H. injection H as <-. reflexivity. Qed.
 
@@ -1214,8 +1255,8 @@ Qed.
 
 (* do_use_token: the monitor accepts the calls; afterwards the station is still in the visit, or it has
    decided to pass the token - because every application has declined, or because the hold time is over *)
-Lemma do_use_token_mon f now (w : W) f' w' m :
-  do_use_token A ops f now w = Ok (f', w') ->
+Lemma do_use_token_head_mon f now (w : W) f' w' m :
+  do_use_token_head A ops f now w = Ok (f', w') ->
   length (w_apps w) = n -> in_visit (c_kind m) = true -> c_turn m = f_next_app f -> inv_st n f m ->
   exists l, w_calls w' = w_calls w ++ l /\ acalls n tsa m l /\ length (w_apps w') = n /\ f_p f' = f_p f /\
     let m' := mcalls n m l in
@@ -1223,7 +1264,7 @@ Lemma do_use_token_mon f now (w : W) f' w' m :
     (in_visit (kind_of (f_state f')) = true \/
      (f_state f' = PassToken true first_attempt /\ (c_decl m' = n \/ f_end_tht f' <= now))).
 Proof.
-  unfold do_use_token, assert_entry. intros H Hlen Hvis Hturn Hinv.
+  unfold do_use_token_head, assert_entry. intros H Hlen Hvis Hturn Hinv.
   destruct (f_state f) as [ | | | |tk fa fcd| | | | | ] eqn:Es; cbn [kind_of do_fn_entry state_kind_eqb bind get_use_token] in H; try discriminate H.
   match type of H with bind ?x _ = _ => destruct x as [[f1 w1]| |] eqn:E1 end; cbn [bind] in H; try discriminate H.
   assert (H1 : keepw w w1 /\ f_state f1 = f_state f /\ f_next_app f1 = f_next_app f /\ f_p f1 = f_p f).
@@ -1309,14 +1350,45 @@ Proof.
         destruct R2 as [R2 [R3 R4]]. split; [exact R2|]. split; [exact R3|left; exact R4].
 Qed.
 
+(* the whole do_use_token: the head, then - when the head decided to pass the token - do_pass_token in
+   the same poll, which asks no application and ends in a token-passing state or in the next visit *)
+Lemma do_use_token_mon f now (w : W) f' w' m :
+  do_use_token A ops f now w = Ok (f', w') ->
+  length (w_apps w) = n -> in_visit (c_kind m) = true -> c_turn m = f_next_app f -> inv_st n f m ->
+  exists l, w_calls w' = w_calls w ++ l /\ acalls n tsa m l /\ length (w_apps w') = n /\ f_p f' = f_p f /\
+    let m' := mcalls n m l in
+    c_turn m' = f_next_app f' /\
+    ((inv_st n f' m' /\ in_visit (kind_of (f_state f')) = true) \/
+     (c_out m' = None /\ (c_decl m' = n \/ f_end_tht f' <= now) /\
+      (pass_kind (kind_of (f_state f')) = true \/ f_state f' = UseToken now None false))).
+Proof.
+  rewrite do_use_token_split. intros H Hlen Hvis Hturn Hinv.
+  destruct (do_use_token_head A ops f now w) as [[f1 w1]| |] eqn:Eh; cbn [bind] in H; try discriminate H.
+  eapply do_use_token_head_mon in Eh; try eassumption.
+  destruct Eh as [l [Hl [Hacc [Hlen1 [Hp1 Hrest]]]]]. cbn zeta in Hrest. destruct Hrest as [R1 [R2 R3]].
+  exists l. cbn zeta.
+  destruct (is_pass_token (f_state f1)) eqn:Ek.
+  - destruct R3 as [R3|[R3 R4]].
+    + exfalso. unfold is_pass_token in Ek. destruct (f_state f1); cbn in Ek, R3; discriminate.
+    + pose proof (do_pass_token_ends _ _ _ _ _ H) as Hends.
+      apply do_pass_token_squiet in H. destruct H as [[Hwc Hwa] [[Kp [Kn [Kl Ke]]] _]].
+      split; [rewrite Hwc; exact Hl|]. split; [exact Hacc|]. split; [rewrite Hwa; exact Hlen1|]. split; [congruence|].
+      split; [rewrite Kn; exact R1|]. right.
+      split; [unfold inv_st in R2; rewrite R3 in R2; exact R2|]. split; [rewrite Ke; exact R4|exact Hends].
+  - injection H as <- <-. split; [exact Hl|]. split; [exact Hacc|]. split; [exact Hlen1|]. split; [exact Hp1|].
+    split; [exact R1|]. left. split; [exact R2|].
+    destruct R3 as [R3|[R3 _]]; [exact R3|]. rewrite R3 in Ek. discriminate Ek.
+Qed.
+
 Lemma do_await_data_response_mon f now (w : W) f' w' m :
   do_await_data_response A ops f now w = Ok (f', w') -> tsa = ts f ->
   length (w_apps w) = n -> c_kind m = KAwaitDataResponse -> c_turn m = f_next_app f -> inv_st n f m ->
   exists l, w_calls w' = w_calls w ++ l /\ acalls n tsa m l /\ length (w_apps w') = n /\ f_p f' = f_p f /\
     let m' := mcalls n m l in
-    ( (c_turn m' = f_next_app f' /\ inv_st n f' m' /\
-       (in_visit (kind_of (f_state f')) = true \/
-        (f_state f' = PassToken true first_attempt /\ (c_decl m' = n \/ f_end_tht f' <= now))))
+    ( (c_turn m' = f_next_app f' /\
+       ((inv_st n f' m' /\ in_visit (kind_of (f_state f')) = true) \/
+        (c_out m' = None /\ (c_decl m' = n \/ f_end_tht f' <= now) /\
+         (pass_kind (kind_of (f_state f')) = true \/ f_state f' = UseToken now None false))))
     \/ (l = [] /\ kind_of (f_state f') = KActiveIdle /\ f_next_app f' = f_next_app f) ).
 Proof.
   intros H Hts Hlen Hkind Hturn Hinv.
@@ -1327,12 +1399,12 @@ Proof.
   - exists [CallReceiveReply (f_next_app f) a t]. split; [exact Hc|].
     split; [split; [|exact I]; cbn; rewrite Hts; split; [exact Hkind|]; split; [exact Hout|]; split; [symmetry; exact Hturn|exact Hok]|].
     split; [rewrite Ha, length_replace_nth; exact Hlen|]. split; [apply Hk|]. cbn. left.
-    destruct Hk as [_ [Kn _]]. split; [rewrite Kn; exact Hturn|]. split; [|rewrite Hs'; left; reflexivity].
+    destruct Hk as [_ [Kn _]]. split; [rewrite Kn; exact Hturn|]. left. split; [|rewrite Hs'; reflexivity].
     unfold inv_st. rewrite Hs', Kn. cbn. split; [reflexivity|exact Hv].
   - exists []. rewrite app_nil_r. split; [apply Hw|]. split; [exact I|]. split; [destruct Hw as [_ ->]; exact Hlen|]. split; [apply Hk|].
     cbn. right. split; [reflexivity|]. split; [rewrite Hs'; reflexivity|apply Hk].
   - exists []. rewrite app_nil_r. split; [apply Hw|]. split; [exact I|]. split; [destruct Hw as [_ ->]; exact Hlen|]. split; [apply Hk|].
-    cbn. left. destruct Hk as [_ [Kn _]]. split; [rewrite Kn; exact Hturn|]. split; [|rewrite Hs', Es; left; reflexivity].
+    cbn. left. destruct Hk as [_ [Kn _]]. split; [rewrite Kn; exact Hturn|]. left. split; [|rewrite Hs', Es; reflexivity].
     unfold inv_st. rewrite Hs', Es, Kn. split; [exact Hout|exact Hv].
   - set (m1 := cpost n m (HCall (CallHandleTimeout (f_next_app f) a))).
     destruct Hk3 as [Kp [Kn [Kl Ke]]].
@@ -1373,26 +1445,38 @@ Proof. intros Hn. destruct fa as [first|]; cbn; [intros [_ [H _]]; lia|intros ->
 (* a poll inside a visit *)
 Lemma outcome_visit now m l f' :
   in_visit (c_kind m) = true -> acalls n tsa m l ->
-  c_turn (mcalls n m l) = f_next_app f' -> inv_st n f' (mcalls n m l) ->
-  (in_visit (kind_of (f_state f')) = true \/
-   (f_state f' = PassToken true first_attempt /\ (c_decl (mcalls n m l) = n \/ f_end_tht f' <= now))) ->
+  c_turn (mcalls n m l) = f_next_app f' ->
+  ((inv_st n f' (mcalls n m l) /\ in_visit (kind_of (f_state f')) = true) \/
+   (c_out (mcalls n m l) = None /\ (c_decl (mcalls n m l) = n \/ f_end_tht f' <= now) /\
+    (pass_kind (kind_of (f_state f')) = true \/ f_state f' = UseToken now None false))) ->
   outcome now m l f'.
 Proof.
-  intros Hvis Hacc Hturn Hinv Hd. apply outcome_intro; [exact Hacc| |].
+  intros Hvis Hacc Hturn Hd. apply outcome_intro; [exact Hacc| |].
   - pose proof (mcalls_kind n l m) as Hk. set (m' := mcalls n m l) in *. cbn. rewrite Hk, Hvis.
-    unfold inv_st in Hinv. destruct Hd as [Hv|[Hs Hd]].
-    + destruct (f_state f') as [ | | | |tk fa fcd| |a tk fa| | | ] eqn:Es; try discriminate Hv; cbn.
+    destruct Hd as [[Hinv Hv]|[Ho [Hd Hp]]].
+    + unfold inv_st in Hinv.
+      destruct (f_state f') as [ | | | |tk fa fcd| |a tk fa| | | ] eqn:Es; try discriminate Hv; cbn.
       * destruct Hinv as [Ho Hvi]. split; [discriminate|]. split; [intros C; contradiction|].
-        split; [intros _ Hn Hdn; exfalso; exact (visit_inv_not_all _ _ _ Hn Hvi Hdn)|discriminate].
+        split; [intros _ Hn Hdn; exfalso; exact (visit_inv_not_all _ _ _ Hn Hvi Hdn)|].
+        intros _ [C|[Hf Hne]]; [discriminate C|]. exfalso.
+        destruct fa as [first|]; [discriminate Hf|]. cbn in Hvi. contradiction.
       * destruct Hinv as [Ho Hvi]. split; [intros _; rewrite Ho; discriminate|]. split; [intros _; left; reflexivity|].
-        split; [intros _ Hn Hdn; exfalso; exact (visit_inv_not_all _ _ _ Hn Hvi Hdn)|discriminate].
-    + rewrite Hs in *. cbn. split; [discriminate|]. split; [intros C; contradiction|]. split; [reflexivity|]. intros _ _. exact Hd.
+        split; [intros _ Hn Hdn; exfalso; exact (visit_inv_not_all _ _ _ Hn Hvi Hdn)|].
+        intros _ [C|[C _]]; discriminate C.
+    + split; [intros C; destruct Hp as [Hp|Hp]; [rewrite C in Hp; discriminate Hp|rewrite Hp in C; discriminate C]|].
+      split; [intros C; contradiction|].
+      split; [intros _ _ _; destruct Hp as [Hp|Hp]; [left; exact Hp|right; rewrite Hp; reflexivity]|].
+      intros _ _. exact Hd.
   - pose proof (mcalls_kind n l m) as Hk. set (m' := mcalls n m l) in *.
-    unfold Inv, inv_st in *. cbn. destruct Hd as [Hv|[Hs Hd]].
+    unfold Inv, inv_st in *. cbn. destruct Hd as [[Hinv Hv]|[Ho [Hd Hp]]].
     + destruct (f_state f') as [ | | | |tk fa fcd| |a tk fa| | | ] eqn:Es; try discriminate Hv; cbn.
-      * rewrite Hk, Hvis. split; [reflexivity|]. split; [exact Hturn|]. split; [reflexivity|apply Hinv].
+      * rewrite Hk, Hvis. split; [reflexivity|]. split; [exact Hturn|]. split; [reflexivity|].
+        destruct Hinv as [_ Hvi]. destruct fa as [first|]; [exact Hvi|]. destruct fcd; [exact Hvi|reflexivity].
       * rewrite Hk, Hvis. split; [reflexivity|]. split; [exact Hturn|]. exact Hinv.
-    + rewrite Hs. cbn. split; [reflexivity|]. split; [exact Hturn|reflexivity].
+    + destruct Hp as [Hp|Hp].
+      * destruct (f_state f') as [ | | | | | | |g a| |a] eqn:Es; try discriminate Hp; cbn;
+          (split; [reflexivity|]; split; [exact Hturn|reflexivity]).
+      * rewrite Hp. cbn. rewrite Hk, Hvis. split; [reflexivity|]. split; [exact Hturn|]. split; reflexivity.
 Qed.
 
 (* a poll outside a visit that calls no application; the station may have been re-created *)
@@ -1419,8 +1503,8 @@ Proof.
   intros [Hk [Hturn Hinv]] Hs Hn.
   assert (Hinv' : inv_st n f' m) by (unfold inv_st in *; rewrite Hs, Hn; exact Hinv).
   destruct (in_visit (c_kind m)) eqn:Hvis.
-  - apply outcome_visit; [exact Hvis|exact I|cbn; rewrite Hn; exact Hturn|exact Hinv'|].
-    left. rewrite Hs, <- Hk. exact Hvis.
+  - apply outcome_visit; [exact Hvis|exact I|cbn; rewrite Hn; exact Hturn|].
+    left. split; [exact Hinv'|]. rewrite Hs, <- Hk. exact Hvis.
   - rewrite Hk in Hvis. unfold inv_st in Hinv'. rewrite Hs in Hinv'.
     apply outcome_quiet; [rewrite Hk; exact Hvis| | |intros _; rewrite Hn; exact Hturn|];
       rewrite ?Hs; destruct (f_state f); try discriminate Hvis; try tauto; try discriminate.
@@ -1435,7 +1519,8 @@ Proof.
   - cbn. rewrite Hs', Hk, Hs. cbn. unfold inv_st in Hinv.
     destruct (f_state f) as [ | | | | | |a tk fa| | | ]; try discriminate Hs. destruct Hinv as [Ho Hvi].
     split; [discriminate|]. split; [intros _; right; reflexivity|].
-    split; [intros _ Hp Hd; exfalso; exact (visit_inv_not_all _ _ _ Hp Hvi Hd)|discriminate].
+    split; [intros _ Hp Hd; exfalso; exact (visit_inv_not_all _ _ _ Hp Hvi Hd)|].
+    intros _ [C|[C _]]; [discriminate C|]. destruct (f_state f'); try discriminate Hs'. discriminate C.
   - unfold Inv, inv_st. cbn. rewrite Hs'.
     destruct (f_state f') as [ | | |sr nps cc| | | | | | ]; try discriminate Hs'. cbn.
     split; [reflexivity|]. split; [rewrite Hn; exact Hturn|reflexivity].
@@ -1558,7 +1643,7 @@ Proof.
       assert (Hs : f_state f3 = f_state f) by (destruct Hs3 as [E|[_ [E|E]]]; [congruence|discriminate E|discriminate E]).
       rewrite Es3 in Hs.
       eapply do_use_token_mon with (n := n) (tsa := ts f) (m := m) in Hd.
-      * destruct Hd as [l [Hl [Hacc [Hlen' [Hp' [R1 [R2 R3]]]]]]]. exists l. split; [congruence|].
+      * destruct Hd as [l [Hl [Hacc [Hlen' [Hp' [R1 R2]]]]]]. exists l. split; [congruence|].
         split; [|split; [exact Hlen'|congruence]]. apply outcome_visit; try assumption.
         rewrite Hk, <- Hs. reflexivity.
       * exact Hlen3.
@@ -1569,7 +1654,7 @@ Proof.
     + assert (Hs : f_state f3 = f_state f) by (destruct Hs3 as [E|[_ [E|E]]]; [congruence|discriminate E|discriminate E]).
       rewrite Es3 in Hs.
       eapply do_await_data_response_mon with (n := n) (tsa := ts f) (m := m) in Hd.
-      * destruct Hd as [l [Hl [Hacc [Hlen' [Hp' [[R1 [R2 R3]]|[-> [R2 R3]]]]]]]].
+      * destruct Hd as [l [Hl [Hacc [Hlen' [Hp' [[R1 R2]|[-> [R2 R3]]]]]]]].
         -- exists l. split; [congruence|]. split; [|split; [exact Hlen'|congruence]]. apply outcome_visit; try assumption.
            rewrite Hk, <- Hs. reflexivity.
         -- exists []. split; [congruence|]. split; [|split; [exact Hlen'|congruence]].
@@ -1829,24 +1914,32 @@ Lemma do_use_token_zero_apps f (w : W) now tk fa fcd l :
   w_apps w = [] -> f_state f = UseToken tk fa fcd -> f_last_token_time f = tk -> f_lba f = Some l ->
   i64_ok (l + p_bits_to_time (f_p f) sync_pause_bits) = true ->
   l + p_bits_to_time (f_p f) sync_pause_bits < now ->
-  exists w', do_use_token A ops f now w = Ok (set_st f (PassToken true first_attempt), w') /\
-             w_calls w' = w_calls w /\ w_tx w' = w_tx w /\ w_apps w' = [].
+  exists w1, do_use_token A ops f now w = do_pass_token A (set_st f (PassToken true first_attempt)) now w1 /\
+             w_calls w1 = w_calls w /\ w_tx w1 = w_tx w /\ w_apps w1 = [] /\
+             forall f' w', do_use_token A ops f now w = Ok (f', w') -> w_calls w' = w_calls w /\ w_apps w' = [].
 Proof.
   intros Ha Hst Hlt Hl Hok Hsync.
-  unfold do_use_token, assert_entry. rewrite Hst. cbn [f_state kind_of do_fn_entry state_kind_eqb bind get_use_token].
-  rewrite Hlt, Z.eqb_refl. cbn [negb bind].
-  unfold wait_synchronization_pause, lba_get_or_insert. rewrite Hl. unfold inst_add. rewrite Hok. cbn [bind].
-  destruct (Z.leb_spec now (l + p_bits_to_time (f_p f) sync_pause_bits)) as [C|_]; [lia|].
-  rewrite Hst. cbn [get_use_token bind].
-  destruct (now <? f_end_tht f).
-  - unfold set_first_cycle_done. rewrite Hst. cbn [get_use_token bind].
-    rewrite apps_transmit_telegram_zero by (cbn; exact Ha). cbn [bind].
-    unfold trans. cbn. eexists. split; [reflexivity|]. cbn. repeat split; try reflexivity. exact Ha.
-  - destruct fcd; cbn [negb bind].
-    + unfold trans. rewrite Hst. cbn. eexists. split; [reflexivity|]. cbn. repeat split; try reflexivity. exact Ha.
-    + unfold set_first_cycle_done. rewrite Hst. cbn [get_use_token bind].
+  assert (Hh : exists w1, do_use_token_head A ops f now w = Ok (set_st f (PassToken true first_attempt), w1) /\
+                          w_calls w1 = w_calls w /\ w_tx w1 = w_tx w /\ w_apps w1 = []).
+  { unfold do_use_token_head, assert_entry. rewrite Hst. cbn [f_state kind_of do_fn_entry state_kind_eqb bind get_use_token].
+    rewrite Hlt, Z.eqb_refl. cbn [negb bind].
+    unfold wait_synchronization_pause, lba_get_or_insert. rewrite Hl. unfold inst_add. rewrite Hok. cbn [bind].
+    destruct (Z.leb_spec now (l + p_bits_to_time (f_p f) sync_pause_bits)) as [C|_]; [lia|].
+    rewrite Hst. cbn [get_use_token bind].
+    destruct (now <? f_end_tht f).
+    - unfold set_first_cycle_done. rewrite Hst. cbn [get_use_token bind].
       rewrite apps_transmit_telegram_zero by (cbn; exact Ha). cbn [bind].
       unfold trans. cbn. eexists. split; [reflexivity|]. cbn. repeat split; try reflexivity. exact Ha.
+    - destruct fcd; cbn [negb bind].
+      + unfold trans. rewrite Hst. cbn. eexists. split; [reflexivity|]. cbn. repeat split; try reflexivity. exact Ha.
+      + unfold set_first_cycle_done. rewrite Hst. cbn [get_use_token bind].
+        rewrite apps_transmit_telegram_zero by (cbn; exact Ha). cbn [bind].
+        unfold trans. cbn. eexists. split; [reflexivity|]. cbn. repeat split; try reflexivity. exact Ha. }
+  destruct Hh as [w1 [Hh [Hc [Ht Ha1]]]].
+  assert (Hd : do_use_token A ops f now w = do_pass_token A (set_st f (PassToken true first_attempt)) now w1).
+  { rewrite do_use_token_split, Hh. reflexivity. }
+  exists w1. split; [exact Hd|]. split; [exact Hc|]. split; [exact Ht|]. split; [exact Ha1|].
+  intros f' w' H. rewrite Hd in H. apply do_pass_token_frame in H. destruct H as [-> [-> _]]. split; assumption.
 Qed.
 
 (* ------------------------------------------------------------------------------------------ *)
@@ -1877,11 +1970,11 @@ Proof.
         split; [rewrite Hl, Hc1, <- app_assoc; reflexivity|]. constructor; assumption.
 Qed.
 
-Lemma do_use_token_results f now (w : W) f' w' :
-  do_use_token A ops f now w = Ok (f', w') ->
+Lemma do_use_token_head_results f now (w : W) f' w' :
+  do_use_token_head A ops f now w = Ok (f', w') ->
   exists l, w_calls w' = w_calls w ++ l /\ Forall is_app_result l.
 Proof.
-  unfold do_use_token. intros H.
+  unfold do_use_token_head. intros H.
   destruct (assert_entry DoUseToken f); cbn [bind] in H; try discriminate H.
   destruct (get_use_token (f_state f)) as [[[tk fa] fcd]| |]; cbn [bind] in H; try discriminate H.
   match type of H with bind ?x _ = _ => destruct x as [[f1 w1]| |] eqn:E1 end; cbn [bind] in H; try discriminate H.
@@ -1912,6 +2005,17 @@ Proof.
     + match type of H with bind ?x _ = _ => destruct x as [[[f3 w3] d]| |] eqn:El end; cbn [bind] in H; try discriminate H.
       exact (Hround _ _ _ _ _ El H).
     + cbn [bind] in H. apply trans_keep in H. destruct H as [_ [_ [_ [_ [[Hw _] _]]]]]. apply Hnone. rewrite Hw. exact Hc1.
+Qed.
+
+Lemma do_use_token_results f now (w : W) f' w' :
+  do_use_token A ops f now w = Ok (f', w') ->
+  exists l, w_calls w' = w_calls w ++ l /\ Forall is_app_result l.
+Proof.
+  rewrite do_use_token_split. intros H.
+  destruct (do_use_token_head A ops f now w) as [[f1 w1]| |] eqn:Eh; cbn [bind] in H; try discriminate H.
+  apply do_use_token_head_results in Eh.
+  destruct (is_pass_token (f_state f1)); [|injection H as <- <-; exact Eh].
+  apply do_pass_token_frame in H. destruct H as [Hc _]. rewrite Hc. exact Eh.
 Qed.
 
 Lemma poll_results f now pin (apps : list A) f' o apps' calls :
@@ -1990,7 +2094,8 @@ Arguments event A : clear implicits.
 (* Non-vacuity: a concrete application on a concrete station, run through the model.  The application
    sends one SRD request to station 5 when first asked and declines afterwards; the station holds the
    token (UseToken), the hold time is far away.  Four polls: request sent, PHY still busy, short
-   confirmation received, application declines -> the token is passed. *)
+   confirmation received, application declines -> the token is passed in that same poll (F20 repair); the
+   station is alone in its ring, so it passes the token to itself and its next visit begins. *)
 Definition demo_hdr : header := mkHeader 5 2 None None (FcRequest FcbFirst RqSrdLow).
 Definition demo_ops : app_ops nat :=
   mkAppOps nat
@@ -2020,7 +2125,7 @@ Proof. vm_compute. repeat split. Qed.
 Lemma demo_history : exists f apps h,
   run nat demo_ops demo_start [0%nat] demo_events = Ok (f, apps, h) /\
   calls_of h = [CallTransmit 0 false (Some (demo_wire, Some 5)); CallReceiveReply 0 5 TShortConf; CallTransmit 0 false None] /\
-  f_state f = PassToken true AttFirst /\ apps = [2%nat].
+  f_state f = UseToken 300000 None false /\ apps = [2%nat].
 Proof.
   destruct (run nat demo_ops demo_start [0%nat] demo_events) as [[[f apps] h]| |] eqn:E.
   - exists f, apps, h. split; [reflexivity|].
@@ -2028,7 +2133,7 @@ Proof.
                  | Ok (f, apps, h) => (calls_of h, f_state f, apps)
                  | _ => ([], Offline, [])
                  end = ([CallTransmit 0 false (Some (demo_wire, Some 5)); CallReceiveReply 0 5 TShortConf; CallTransmit 0 false None],
-                        PassToken true AttFirst, [2%nat])) by (vm_compute; reflexivity).
+                        UseToken 300000 None false, [2%nat])) by (vm_compute; reflexivity).
     rewrite E in E'. injection E' as -> -> ->. repeat split.
   - exfalso. assert (E' : is_ok (run nat demo_ops demo_start [0%nat] demo_events) = true) by (vm_compute; reflexivity).
     rewrite E in E'. discriminate E'.
